@@ -363,6 +363,34 @@ func (l3DM) Unmarshal(data []byte, v interface{}) error {
 	switch p := v.(type) {
 	case *[]*SwComponent:
 		return l3decodeComponents(it, p)
+	case *[]cbor.RawMessage:
+		// an array kept undecoded: one window per element
+		a := l3untag(it)
+		if a.kind == ikNull {
+			*p = nil
+			return nil
+		}
+		if a.kind != ikArray {
+			return l3typeErr()
+		}
+		out := make([]cbor.RawMessage, 0, len(a.elems))
+		for _, e := range a.elems {
+			out = append(out, cbor.RawMessage(l3handle(e)))
+		}
+		*p = out
+		return nil
+	case **SwComponent:
+		// a pointer destination: null sets it to nil; otherwise a nil pointer gets a fresh
+		// struct and a NON-NIL one is decoded INTO (members absent from the map keep their value)
+		e := l3untag(it)
+		if e.kind == ikNull {
+			*p = nil
+			return nil
+		}
+		if *p == nil {
+			*p = &SwComponent{}
+		}
+		return l3decodeStruct(e, reflect.ValueOf(*p).Elem())
 	}
 	rv := reflect.ValueOf(v).Elem()
 	if rv.Kind() == reflect.Struct {
